@@ -73,11 +73,19 @@ class Enc:
                 ic = '(Some %s)' % qc(vals[1])
             else:
                 self.bad = 'no rational initial condition for ' + e['name']
-        return '(ElemQ %s %s %s %s %s %s)' % (self.name(e['name']), ty, nlist(str(self.node(n)) for n in e['nodes']),
+        return '(ElemQ %s %s %s %s %s %s)' % ('(NWire 0)' if ty == 'TW' else self.name(e['name']), ty, nlist(str(self.node(n)) for n in e['nodes']),
                                             self.kw(e) if ty in ('TV', 'TI') else 'KwNone', qc(v), ic)
 
     def net(self, elems):
-        return '[%s]' % ';\n   '.join(self.elem(e) for e in elems)
+        out = []
+        k = 0
+        for e in elems:
+            t = self.elem(e)
+            if e['type'] == 'W':
+                t = t.replace('(NWire 0)', '(NWire %d)' % k, 1)
+                k += 1
+            out.append(t)
+        return '[%s]' % ';\n   '.join(out)
 
     def names(self, l):
         return nlist(self.name(x) for x in l)
@@ -97,28 +105,45 @@ def parse_lines(text):
     return out
 
 
-def find_path(stage_elems, aset):
+def find_path(stage_elems, aset, classes=False):
     """stage_elems: list of dict(name, type, nodes) of the netlist the stage ran
-    on.  Returns (start node, [names in path order, wires included]) such that
-    the members of aset are traversed by one trail, or None."""
-    two = {e['name']: tuple(e['nodes']) for e in stage_elems if len(e['nodes']) == 2}
+    on.  classes=False: walk on node names, wires are ordinary edges that may be
+    used to connect the members; classes=True: walk on equipotential classes,
+    members only.  Returns (start node, [names in path order]) such that the
+    members of aset are traversed by one trail, or None."""
+    from vlib.rewritegen import UF
+    uf = UF()
+    if classes:
+        for e in stage_elems:
+            for n in e['nodes']:
+                uf.find(n)
+            if e['type'] == 'W' and len(e['nodes']) == 2:
+                uf.union(e['nodes'][0], e['nodes'][1])
+    f = (lambda n: uf.find(n)) if classes else (lambda n: n)
+    two = {e['name']: (f(e['nodes'][0]), f(e['nodes'][1])) for e in stage_elems if len(e['nodes']) == 2}
     members = [a for a in aset if a in two]
     if len(members) != len(aset):
         return None
-    wires = [e['name'] for e in stage_elems if e['type'] == 'W' and len(e['nodes']) == 2]
+    wires = [] if classes else [e['name'] for e in stage_elems if e['type'] == 'W' and len(e['nodes']) == 2]
     edges = members + wires
     inc = {}
     for nm in edges:
         for n in two[nm]:
             inc.setdefault(n, []).append(nm)
     mset = set(members)
-    starts = []
     mdeg = {}
     for nm in members:
         for n in two[nm]:
             mdeg[n] = mdeg.get(n, 0) + 1
-    cand = sorted(mdeg, key=lambda n: (n != '0', mdeg[n] != 1, n))
-    # wire ends may also start the walk
+    tdeg = {}
+    for e in stage_elems:
+        if e['type'] == 'W' and classes:
+            continue
+        for n in e['nodes']:
+            tdeg[f(n)] = tdeg.get(f(n), 0) + 1
+    # true ends of the chain first (a node where something else is attached or
+    # where the chain stops); in a closed loop the reference node
+    cand = sorted(mdeg, key=lambda n: (tdeg.get(n, 0) == 2 and mdeg[n] == 2, n != '0', mdeg[n] != 1, n))
     for n in sorted(inc):
         if n not in cand:
             cand.append(n)
@@ -135,9 +160,9 @@ def find_path(stage_elems, aset):
             if nm in used:
                 continue
             a, b = two[nm]
-            other = b if a == node else a
             if a == b:
                 continue
+            other = b if a == node else a
             used.add(nm)
             path.append(nm)
             r = dfs(other, used, path, covered + (1 if nm in mset else 0))
@@ -149,8 +174,7 @@ def find_path(stage_elems, aset):
     for st in cand:
         r = dfs(st, set(), [], 0)
         if r is not None:
-            # drop leading wires
-            while r and r[0] not in mset:
+            while r and r[0] not in mset:       # drop leading wires
                 a, b = two[r[0]]
                 st = b if a == st else a
                 r = r[1:]
@@ -183,9 +207,14 @@ def build_trace(enc, log):
         elif ent[0] == 'subsets' and cur is not None and not cur['half']:
             if cur['next'] < len(cur['asets']):
                 a = cur['asets'][cur['next']]
-                a['subs'] = [{'type': k, 'names': v, 'order': None} for k, v in ent[2]]
+                a['subs'] = [{'type': k, 'names': v, 'order': None, 'pop': None} for k, v in ent[2]]
                 cur['next'] += 1
                 cur['last'] = a
+        elif ent[0] == 'check_ic' and cur is not None and cur.get('last') is not None:
+            for sb in cur['last']['subs']:
+                if sb['pop'] is None and sorted(sb['names']) == sorted(ent[1]):
+                    sb['pop'] = ent[2]
+                    break
         elif ent[0] == 'list' and cur is not None and cur.get('last') is not None:
             for sb in cur['last']['subs']:
                 if sb['order'] is None and sorted(sb['names']) == sorted(ent[1]):
@@ -201,17 +230,26 @@ def build_trace(enc, log):
         asets = []
         for a in stg['asets']:
             start, path = 0, list(a['names'])
-            if series:
-                fp = find_path(elems, a['names']) if elems else None
+            rstart, rpath = 0, list(a['names'])
+            wpos = {}
+            for e in elems:
+                if e['type'] == 'W':
+                    wpos[e['name']] = len(wpos)
+            if series and elems:
+                fp = find_path(elems, a['names'], classes=True)
                 if fp is not None:
-                    start_name, path = fp
-                    start = enc.node(start_name)
+                    start, path = enc.node(fp[0]), fp[1]
+                fp = find_path(elems, a['names'], classes=False)
+                if fp is not None:
+                    rstart, rpath = enc.node(fp[0]), fp[1]
             subs = []
             for sb in (a['subs'] or []):
                 ty = ETY.get(sb['type'], 'TX')
                 order = 'None' if sb['order'] is None else '(Some %s)' % enc.names(sb['order'])
-                subs.append('(Sub %s %s %s)' % (ty, enc.names(sb['names']), order))
-            asets.append('(ASet %s %d %s %s)' % (enc.names(a['names']), start, enc.names(path), nlist(subs)))
+                pop = 'None' if sb['pop'] is None else '(Some %s)' % enc.name(sb['pop'])
+                subs.append('(Sub %s %s %s %s)' % (ty, enc.names(sb['names']), order, pop))
+            rp = nlist(('(NWire %d)' % wpos[x]) if x in wpos else enc.name(x) for x in rpath)
+            asets.append('(ASet %s %d %s %d %s %s)' % (enc.names(a['names']), start, enc.names(path), rstart, rp, nlist(subs)))
         terms.append('(Stage %s %s)' % ('true' if series else 'false', nlist(asets)))
     return nlist(terms)
 
@@ -231,7 +269,7 @@ def sargs(enc, case_args, ground):
                                                b('series', True), b('parallel', True), b('dangling', False), b('disconnected', False)), unknown_keep
 
 
-RES_RE = re.compile(r'\((\d+),\s*(\d+),\s*\((true|false),\s*(true|false),\s*(true|false)\)\)')
+RES_RE = re.compile(r'\((\d+),\s*(\d+),\s*\((true|false),\s*(true|false),\s*(true|false),\s*(true|false)\)\)')
 
 
 def parse_codes(out):
@@ -239,4 +277,4 @@ def parse_codes(out):
     m = re.search(r'=\s*\[(.*?)\]\s*:\s*list', out, re.S)
     if not m:
         return None
-    return [(int(a), int(b), (c == 'true', d == 'true', e == 'true')) for a, b, c, d, e in RES_RE.findall(m.group(1))]
+    return [(int(a), int(b), (c == 'true', d == 'true', e == 'true', f == 'true')) for a, b, c, d, e, f in RES_RE.findall(m.group(1))]
